@@ -313,6 +313,16 @@ func (c *oCache) TryRemove(id string) (ok bool, err error) {
 
 	c.mu.Unlock()
 
+	select {
+	case <-e.load:
+	default:
+		// still loading: there is no value to close yet
+		return false, nil
+	}
+	if e.loadErr != nil {
+		return false, ErrNotExists
+	}
+
 	prevState, _, _ := e.setClosing(context.Background(), false)
 	if prevState == entryStateClosing || prevState == entryStateClosed {
 		return false, nil
